@@ -550,6 +550,12 @@ type World struct {
 	// progress (TrackLocks): after a step that panicked it tells whether the party left its mutex locked.
 	lockDepth    int32
 	locksTracked bool
+	// TolerateCrashOf: a panic inside this node's own calls is that node stopping, not a finding (C11: a
+	// deviating party running the real code on inputs it was never meant to see).
+	TolerateCrashOf *Node
+	// OldPartyCount, when larger than the number of participating old members, is passed as partyCount to
+	// the resharing parameters (the number of holders of the key).
+	OldPartyCount int
 }
 
 // TrackLocks installs the party-mutex hook for this world; the returned function removes it.
@@ -808,6 +814,21 @@ func (w *World) finishStep(ev *StepEvent) {
 		return
 	}
 	atomic.StoreInt32(&w.lockDepth, 0)
+	if ev.Outcome.Panic != nil && n == w.TolerateCrashOf {
+		// a deviating party running the real code on wrong inputs broke down: for the others it is a party
+		// that stopped; what it had sent stays sent
+		n.Crashed, n.Silenced = true, true
+		w.Probes["deviating_party_broke_down"]++
+		w.Logf("  -> deviating node %s broke down: %v", n.Name, ev.Outcome.Panic)
+		w.drain(n, ev)
+		w.Events = append(w.Events, ev)
+		for _, f := range w.AfterStep {
+			if v := f(ev); v != nil && w.Violation == nil {
+				w.Violation = v
+			}
+		}
+		return
+	}
 	if ev.Outcome.Panic != nil {
 		w.fail("panic", "node %s %s: panic: %v\n%s", n.Name, ev.Kind, ev.Outcome.Panic, firstRepoFrames(ev.Outcome.Stack))
 	}
